@@ -128,9 +128,44 @@ def isOpenId (ps : List Proposal) (pid : Nat) : Bool :=
   | some p => isOpenSt p.status
   | none => false
 
+/-- no stored proposal carries a message that spends from the gov module account -/
+def CleanP (ps : List Proposal) : Prop := ∀ id p, findProp ps id = some p → noGovSpend p.msgs = true
+
 structure Inv (s : State) : Prop where
   bal : s.gov = sumAmt s.deps
   recs : ∀ d ∈ s.deps, isOpenId s.props d.pid = true
+  /-- round 5: `bal` is only an invariant of histories in which no stored proposal can spend the escrow (`NoGovSpend`) -/
+  clean : CleanP s.props
+
+/-! ### stored proposals that cannot spend the escrow -/
+
+theorem cleanP_put {ps : List Proposal} {q : Proposal} (h : CleanP ps) (hq : noGovSpend q.msgs = true) : CleanP (putProp ps q) := by
+  intro id p hp
+  rw [findProp_putProp] at hp
+  by_cases hid : id = q.id
+  · rw [if_pos hid] at hp
+    cases hf : findProp ps id with
+    | none => rw [hf] at hp; cases hp
+    | some p' => rw [hf] at hp; simp only [Option.map] at hp; cases hp; exact hq
+  · rw [if_neg hid] at hp; exact h id p hp
+
+theorem cleanP_drop {ps : List Proposal} {x : Nat} (h : CleanP ps) : CleanP (dropProp ps x) := by
+  intro id p hp
+  rw [findProp_dropProp] at hp
+  split at hp
+  · cases hp
+  · exact h id p hp
+
+theorem cleanP_append {ps : List Proposal} {q : Proposal} (h : CleanP ps) (hq : noGovSpend q.msgs = true) : CleanP (ps ++ [q]) := by
+  intro id p hp
+  rw [findProp_append] at hp
+  cases hf : findProp ps id with
+  | some p' => rw [hf] at hp; simp only at hp; cases hp; exact h id _ hf
+  | none =>
+    rw [hf] at hp; simp only at hp
+    split at hp
+    · cases hp; exact hq
+    · cases hp
 
 theorem isOpenId_putProp_other {ps : List Proposal} {q : Proposal} {id : Nat} (h : id ≠ q.id) :
     isOpenId (putProp ps q) id = isOpenId ps id := by
@@ -205,7 +240,7 @@ theorem chargeLoop_sum (rate : Nat) : ∀ (ds : List Dep) (g : Nat) (b : List (A
       · cases h
 
 theorem execMsg_frame {m : Msg} {s s' : State} (h : execMsg m s = some s') :
-    s'.props = s.props ∧ s'.deps = s.deps ∧ s'.gov = s.gov ∧ s'.inactive = s.inactive ∧ s'.active = s.active ∧
+    s'.props = s.props ∧ s'.deps = s.deps ∧ (spendsEscrow m = false → s'.gov = s.gov) ∧ s'.inactive = s.inactive ∧ s'.active = s.active ∧
     s'.time = s.time ∧ s'.params = s.params ∧ s'.nextId = s.nextId ∧ s'.votes = s.votes := by
   unfold execMsg at h
   split at h
@@ -223,9 +258,16 @@ theorem execMsg_frame {m : Msg} {s s' : State} (h : execMsg m s = some s') :
         · cases h
     · simp [addDepositGov, show depositGuardsModule = true from rfl] at h
     · simp [submitGov, show depositGuardsModule = true from rfl] at h
+    · rename_i amt to hact
+      split at h
+      · cases h
+      · cases h; simp [spendsEscrow, hact]
+
+theorem noGovSpend_cons {m : Msg} {r : List Msg} (h : noGovSpend (m :: r) = true) : spendsEscrow m = false ∧ noGovSpend r = true := by
+  simpa [noGovSpend] using h
 
 theorem execMsgs_frame : ∀ (ms : List Msg) (s s' : State), execMsgs ms s = some s' →
-    s'.props = s.props ∧ s'.deps = s.deps ∧ s'.gov = s.gov ∧ s'.inactive = s.inactive ∧ s'.active = s.active ∧
+    s'.props = s.props ∧ s'.deps = s.deps ∧ (noGovSpend ms = true → s'.gov = s.gov) ∧ s'.inactive = s.inactive ∧ s'.active = s.active ∧
     s'.time = s.time ∧ s'.params = s.params ∧ s'.nextId = s.nextId ∧ s'.votes = s.votes := by
   intro ms
   induction ms with
@@ -237,7 +279,8 @@ theorem execMsgs_frame : ∀ (ms : List Msg) (s s' : State), execMsgs ms s = som
     · rename_i s1 h1
       have f1 := execMsg_frame h1
       have f2 := ih _ _ h
-      refine ⟨f2.1.trans f1.1, f2.2.1.trans f1.2.1, f2.2.2.1.trans f1.2.2.1, f2.2.2.2.1.trans f1.2.2.2.1,
+      refine ⟨f2.1.trans f1.1, f2.2.1.trans f1.2.1,
+        fun hn => (f2.2.2.1 (noGovSpend_cons hn).2).trans (f1.2.2.1 (noGovSpend_cons hn).1), f2.2.2.2.1.trans f1.2.2.2.1,
         f2.2.2.2.2.1.trans f1.2.2.2.2.1, f2.2.2.2.2.2.1.trans f1.2.2.2.2.2.1, f2.2.2.2.2.2.2.1.trans f1.2.2.2.2.2.2.1,
         f2.2.2.2.2.2.2.2.1.trans f1.2.2.2.2.2.2.2.1, f2.2.2.2.2.2.2.2.2.trans f1.2.2.2.2.2.2.2.2⟩
     · cases h
@@ -303,7 +346,7 @@ theorem dropInactive_inv {s s' : State} {pid : Nat} (hsh : inactiveSettleShapeOk
     have key : ∀ s1 s2 : State, (s2.gov = sumAmt s2.deps ∧ s2.deps = depsNot s1.deps pid ∧ s2.props = s1.props) →
         s1.deps = s.deps → s1.props = dropProp s.props pid → Inv s2 := by
       intro s1 s2 ⟨hb, hd, hp2⟩ h2 h3
-      refine ⟨hb, ?_⟩
+      refine ⟨hb, ?_, by rw [hp2, h3]; exact cleanP_drop hi.clean⟩
       intro d hdm
       rw [hd, h2] at hdm
       have := noRec_depsNot hi.recs d hdm
@@ -315,12 +358,12 @@ theorem dropInactive_inv {s s' : State} {pid : Nat} (hsh : inactiveSettleShapeOk
       exact key _ s' ⟨sp.1, sp.2.1, sp.2.2.1⟩ rfl rfl
 
 theorem execPrefix_frame : ∀ (ms : List Msg) (s : State),
-    (execPrefix ms s).props = s.props ∧ (execPrefix ms s).deps = s.deps ∧ (execPrefix ms s).gov = s.gov ∧
+    (execPrefix ms s).props = s.props ∧ (execPrefix ms s).deps = s.deps ∧ (noGovSpend ms = true → (execPrefix ms s).gov = s.gov) ∧
     (execPrefix ms s).inactive = s.inactive ∧ (execPrefix ms s).active = s.active ∧ (execPrefix ms s).time = s.time ∧
     (execPrefix ms s).params = s.params ∧ (execPrefix ms s).nextId = s.nextId ∧ (execPrefix ms s).votes = s.votes := by
   intro ms
   induction ms with
-  | nil => intro s; exact ⟨rfl, rfl, rfl, rfl, rfl, rfl, rfl, rfl, rfl⟩
+  | nil => intro s; exact ⟨rfl, rfl, fun _ => rfl, rfl, rfl, rfl, rfl, rfl, rfl⟩
   | cons m r ih =>
     intro s
     simp only [execPrefix]
@@ -328,15 +371,18 @@ theorem execPrefix_frame : ∀ (ms : List Msg) (s : State),
     · rename_i s1 h1
       have f1 := execMsg_frame h1
       have f2 := ih s1
-      exact ⟨f2.1.trans f1.1, f2.2.1.trans f1.2.1, f2.2.2.1.trans f1.2.2.1, f2.2.2.2.1.trans f1.2.2.2.1,
+      exact ⟨f2.1.trans f1.1, f2.2.1.trans f1.2.1,
+        fun hn => (f2.2.2.1 (noGovSpend_cons hn).2).trans (f1.2.2.1 (noGovSpend_cons hn).1), f2.2.2.2.1.trans f1.2.2.2.1,
         f2.2.2.2.2.1.trans f1.2.2.2.2.1, f2.2.2.2.2.2.1.trans f1.2.2.2.2.2.1, f2.2.2.2.2.2.2.1.trans f1.2.2.2.2.2.2.1,
         f2.2.2.2.2.2.2.2.1.trans f1.2.2.2.2.2.2.2.1, f2.2.2.2.2.2.2.2.2.trans f1.2.2.2.2.2.2.2.2⟩
-    · exact ⟨rfl, rfl, rfl, rfl, rfl, rfl, rfl, rfl, rfl⟩
+    · exact ⟨rfl, rfl, fun _ => rfl, rfl, rfl, rfl, rfl, rfl, rfl⟩
 
-/-- whatever the messages of a passed proposal do, they touch neither the proposals, the deposits, the module balance,
-the queues, the parameters nor the votes (whether or not the error test after the loop sees the handler's error) -/
+/-- whatever the messages of a passed proposal do, they touch neither the proposals, the deposits, the queues, the parameters
+nor the votes (whether or not the error test after the loop sees the handler's error) — and not the module balance either,
+PROVIDED none of them spends from the gov module account (`noGovSpend`, round 5) -/
 theorem runProposalMsgs_same (hc : execInCacheCtx = true) (ms : List Msg) (s : State) :
-    (runProposalMsgs ms s).1.props = s.props ∧ (runProposalMsgs ms s).1.deps = s.deps ∧ (runProposalMsgs ms s).1.gov = s.gov ∧
+    (runProposalMsgs ms s).1.props = s.props ∧ (runProposalMsgs ms s).1.deps = s.deps ∧
+    (noGovSpend ms = true → (runProposalMsgs ms s).1.gov = s.gov) ∧
     (runProposalMsgs ms s).1.inactive = s.inactive ∧ (runProposalMsgs ms s).1.active = s.active ∧
     (runProposalMsgs ms s).1.time = s.time ∧ (runProposalMsgs ms s).1.params = s.params ∧
     (runProposalMsgs ms s).1.nextId = s.nextId ∧ (runProposalMsgs ms s).1.votes = s.votes := by
@@ -346,13 +392,13 @@ theorem runProposalMsgs_same (hc : execInCacheCtx = true) (ms : List Msg) (s : S
   · split
     · rename_i s' h
       exact execMsgs_frame _ _ _ h
-    · exact ⟨rfl, rfl, rfl, rfl, rfl, rfl, rfl, rfl, rfl⟩
+    · exact ⟨rfl, rfl, fun _ => rfl, rfl, rfl, rfl, rfl, rfl, rfl⟩
   · exact execPrefix_frame ms s
 
-theorem runProposalMsgs_frame (hc : execInCacheCtx = true) (ms : List Msg) (s : State) :
+theorem runProposalMsgs_frame (hc : execInCacheCtx = true) (ms : List Msg) (s : State) (hn : noGovSpend ms = true) :
     (runProposalMsgs ms s).1.props = s.props ∧ (runProposalMsgs ms s).1.deps = s.deps ∧ (runProposalMsgs ms s).1.gov = s.gov := by
   have := runProposalMsgs_same hc ms s
-  exact ⟨this.1, this.2.1, this.2.2.1⟩
+  exact ⟨this.1, this.2.1, this.2.2.1 hn⟩
 
 theorem finishTally_inv {s s' : State} {pid : Nat} {p : Proposal} {passes burn : Bool} {res : Nat × Nat × Nat × Nat}
     (hsh : settleShapeOk = true) (hc : execInCacheCtx = true)
@@ -361,6 +407,7 @@ theorem finishTally_inv {s s' : State} {pid : Nat} {p : Proposal} {passes burn :
   simp only [refundRun_eq, burnRun_eq] at h
   simp only [hsh, Bool.not_true, Bool.false_and, Bool.false_eq_true, if_false] at h
   · have hpid : p.id = pid := findProp_id hp
+    have hn : noGovSpend p.msgs = true := hi.clean pid p hp
     simp only [hsh, if_true] at h
     by_cases hkeep : (p.expedited && !passes) = true
     · -- failed expedited proposal: deposits stay, the proposal stays in voting
@@ -371,7 +418,7 @@ theorem finishTally_inv {s s' : State} {pid : Nat} {p : Proposal} {passes burn :
         cases hx : p.expedited <;> simp_all
       simp only [hpass, Bool.false_eq_true, if_false, hexp, if_true] at h
       cases h
-      refine ⟨by simpa using hi.bal, ?_⟩
+      refine ⟨by simpa using hi.bal, ?_, cleanP_put hi.clean hn⟩
       intro d hd
       simp only at hd ⊢
       apply isOpenId_putProp_keep _ (hi.recs d hd)
@@ -402,10 +449,10 @@ theorem finishTally_inv {s s' : State} {pid : Nat} {p : Proposal} {passes burn :
           obtain ⟨s3, ok⟩ := rr
           simp only at h
           cases h
-          have fr := runProposalMsgs_frame hc p.msgs { s1 with active := removeQ (p.votingEnd, pid) s1.active }
+          have fr := runProposalMsgs_frame hc p.msgs { s1 with active := removeQ (p.votingEnd, pid) s1.active } hn
           rw [hr] at fr
           simp only at fr
-          refine ⟨by simp only; rw [fr.2.2, fr.2.1]; exact hb1, ?_⟩
+          refine ⟨by simp only; rw [fr.2.2, fr.2.1]; exact hb1, ?_, by simp only; rw [fr.1, hp1]; exact cleanP_put hi.clean hn⟩
           intro d hd
           simp only at hd ⊢
           rw [fr.2.1, hd1] at hd
@@ -413,14 +460,14 @@ theorem finishTally_inv {s s' : State} {pid : Nat} {p : Proposal} {passes burn :
           exact hpid
         · split at h
           · cases h
-            refine ⟨by simpa using hb1, ?_⟩
+            refine ⟨by simpa using hb1, ?_, by simp only; rw [hp1]; exact cleanP_put hi.clean hn⟩
             intro d hd
             simp only at hd ⊢
             rw [hd1] at hd
             refine recs1 _ ?_ _ hp1 d hd
             exact hpid
           · cases h
-            refine ⟨by simpa using hb1, ?_⟩
+            refine ⟨by simpa using hb1, ?_, by simp only; rw [hp1]; exact cleanP_put hi.clean hn⟩
             intro d hd
             simp only at hd ⊢
             rw [hd1] at hd
@@ -438,7 +485,7 @@ theorem tallyOne_inv {s s' : State} {pid : Nat} {stk : Staking} (hsh : settleSha
     · split at h
       · cases h
       · exact finishTally_inv (s := { s with votes := if tallyRemovesVotes = true then votesNot s.votes pid else s.votes })
-          hsh hc ⟨hi.bal, hi.recs⟩ hp h
+          hsh hc ⟨hi.bal, hi.recs, hi.clean⟩ hp h
 
 theorem runAll_inv {f : Nat → State → Except Err State} (hf : ∀ id s s', Inv s → f id s = .ok s' → Inv s') :
     ∀ (ids : List Nat) (s s' : State), Inv s → runAll f ids s = .ok s' → Inv s' := by
@@ -545,10 +592,11 @@ theorem depositEffect_inv {s : State} {p : Proposal} {who amt : Nat} (hi : Inv s
   have pid1 : isOpenId (putProp s.props { p with total := p.total + amt }) p.id = true := by
     refine isOpenId_putProp_keep (fun _ => hopen') ?_
     simp [isOpenId, hp, hopen']
+  have hn : noGovSpend p.msgs = true := hi.clean p.id p hp
   unfold depositEffect
   simp only
   split
-  · refine ⟨?_, ?_⟩
+  · refine ⟨?_, ?_, ?_⟩
     · simp only [activate, sumAmt_addDep]; rw [hi.bal]
     · intro d hd
       simp only [activate] at hd ⊢
@@ -557,10 +605,12 @@ theorem depositEffect_inv {s : State} {p : Proposal} {who amt : Nat} (hi : Inv s
           isOpenId (putProp (putProp s.props { p with total := p.total + amt }) q) id = true :=
         fun q id hq h => isOpenId_putProp_keep (fun _ => hq) h
       refine openPid _ (hv _ _ ?_ pid1) d hd (fun d hd => hv _ _ ?_ (step1 d hd)) <;> simp [isOpenSt]
-  · refine ⟨?_, ?_⟩
+    · simp only [activate]; exact cleanP_put (cleanP_put hi.clean hn) hn
+  · refine ⟨?_, ?_, ?_⟩
     · simp only [sumAmt_addDep]; rw [hi.bal]
     · intro d hd
       exact openPid _ pid1 d hd step1
+    · exact cleanP_put hi.clean hn
 
 theorem addDeposit_inv {s s' : State} {pid who amt : Nat} (hi : Inv s) (h : addDeposit s pid who amt = .ok s') : Inv s' := by
   obtain ⟨p, hp, ho, rfl⟩ := addDeposit_ok h
@@ -569,7 +619,7 @@ theorem addDeposit_inv {s s' : State} {pid who amt : Nat} (hi : Inv s) (h : addD
   exact depositEffect_inv hi hp ho
 
 theorem submit_inv {s s' : State} {who : Addr} {msgs : List Msg} {initial : Nat} {exp : Bool} (hi : Inv s)
-    (h : submit s who msgs initial exp = .ok s') : Inv s' := by
+    (hm : noGovSpend msgs = true) (h : submit s who msgs initial exp = .ok s') : Inv s' := by
   rw [submit_eq] at h
   unfold submitSpec at h
   split at h
@@ -580,7 +630,7 @@ theorem submit_inv {s s' : State} {who : Addr} {msgs : List Msg} {initial : Nat}
       · cases h
       · simp only at h
         refine addDeposit_inv ?_ h
-        exact ⟨hi.bal, fun d hd => isOpenId_append (hi.recs d hd)⟩
+        exact ⟨hi.bal, fun d hd => isOpenId_append (hi.recs d hd), cleanP_append hi.clean hm⟩
 
 theorem cancel_inv {s s' : State} {pid : Nat} {who : Addr} (hi : Inv s) (h : cancel s pid who = .ok s') : Inv s' := by
   unfold cancel at h
@@ -602,7 +652,7 @@ theorem cancel_inv {s s' : State} {pid : Nat} {who : Addr} (hi : Inv s) (h : can
               cases h
               have hs := chargeLoop_sum _ _ _ _ _ _ _ hc
               have := sumAmt_split s.deps pid
-              refine ⟨?_, ?_⟩
+              refine ⟨?_, ?_, cleanP_drop hi.clean⟩
               · simp only; have := hi.bal; omega
               · intro d hd
                 simp only at hd ⊢
@@ -620,19 +670,19 @@ theorem depositX_ok {s s' : State} {pid who fx other : Nat} (h : depositX s pid 
     · split at h <;> cases h
 
 theorem step_inv (h1 : inactiveSettleShapeOk = true) (h2 : settleShapeOk = true) (h3 : execInCacheCtx = true)
-    {s : State} (op : Op) (hi : Inv s) : Inv (step s op).1 := by
+    {s : State} (op : Op) (hop : opNoGovSpend op = true) (hi : Inv s) : Inv (step s op).1 := by
   cases op with
-  | mint who amt => exact ⟨hi.bal, hi.recs⟩
-  | updateParams p => simp only [step]; split <;> exact ⟨hi.bal, hi.recs⟩
+  | mint who amt => exact ⟨hi.bal, hi.recs, hi.clean⟩
+  | updateParams p => simp only [step]; split <;> exact ⟨hi.bal, hi.recs, hi.clean⟩
   | updateCustom url c =>
     simp only [step]
     split
-    · exact ⟨hi.bal, hi.recs⟩
-    · split <;> exact ⟨hi.bal, hi.recs⟩
+    · exact ⟨hi.bal, hi.recs, hi.clean⟩
+    · split <;> exact ⟨hi.bal, hi.recs, hi.clean⟩
   | submit who msgs initial exp =>
     simp only [step, Model.C15.ofExcept]
     split
-    · rename_i s' h; exact submit_inv hi h
+    · rename_i s' h; exact submit_inv hi hop h
     · exact hi
   | deposit pid who amt =>
     simp only [step, Model.C15.ofExcept]
@@ -669,29 +719,32 @@ theorem step_inv (h1 : inactiveSettleShapeOk = true) (h2 : settleShapeOk = true)
       · split at h
         · cases h
         · split at h
-          · cases h; exact ⟨hi.bal, hi.recs⟩
+          · cases h; exact ⟨hi.bal, hi.recs, hi.clean⟩
           · cases h
     · exact hi
   | spend who amt =>
     simp only [step]
     split
     · exact hi
-    · exact ⟨hi.bal, hi.recs⟩
+    · exact ⟨hi.bal, hi.recs, hi.clean⟩
   | endBlock dt envs =>
     simp only [step]
     split
     · rename_i s' h
       have := endBlock_inv h1 h2 h3 hi h
-      exact ⟨this.bal, this.recs⟩
+      exact ⟨this.bal, this.recs, this.clean⟩
     · exact hi
 
-theorem init_inv : Inv init := ⟨rfl, by intro d hd; cases hd⟩
+theorem init_inv : Inv init := ⟨rfl, (by intro d hd; cases hd), (by intro id p hp; cases hp)⟩
 
 theorem run_inv (h1 : inactiveSettleShapeOk = true) (h2 : settleShapeOk = true) (h3 : execInCacheCtx = true) :
-    ∀ (ops : List Op) (s : State), Inv s → Inv (run s ops) := by
+    ∀ (ops : List Op), NoGovSpend ops = true → ∀ (s : State), Inv s → Inv (run s ops) := by
   intro ops
   induction ops with
-  | nil => intro s hi; exact hi
-  | cons o r ih => intro s hi; exact ih _ (step_inv h1 h2 h3 o hi)
+  | nil => intro _ s hi; exact hi
+  | cons o r ih =>
+    intro hc s hi
+    have hc' : opNoGovSpend o = true ∧ NoGovSpend r = true := by simpa [NoGovSpend] using hc
+    exact ih hc'.2 _ (step_inv h1 h2 h3 o hc'.1 hi)
 
 end FxVerif.Proofs.C15
